@@ -137,6 +137,7 @@ def execute(case, prefix, seed):
     boot.urandom.reset(seed, b"c11-exec")
     g = grid.Grid(S, nclients=1 if phase == "read" else 2, chooser=ch, client_kw=dict(k=K, n=N, happy=1))
     viol, obs = [], {}
+    ms.bound_pending(g)
     try:
         files, dead, replay = layout(case, prep, g)
         warm_node = None
